@@ -1105,6 +1105,30 @@ pub fn c19_check(ops: &[Op], l: &crate::hsys::Layout, nmaps: usize) -> (u64, Vec
     };
     // (iv) a second build in the same process
     cmp("second build of the same sequence", "plan-not-reproducible", ops, &idm, &mut n, &mut vs);
+    // (ix) a second builder alive at the same time, filled in alternation (with the same calls; with the calls in
+    //      reverse order and without their dependencies): a builder's plan is a function of its own calls
+    {
+        let strip = |o: &Op| -> Op {
+            match o {
+                Op::Sys(x) => Op::Sys(SysSpec { deps: vec![], ..x.clone() }),
+                Op::Tl(x) => Op::Tl(SysSpec { deps: vec![], ..x.clone() }),
+                Op::Batch(b) => Op::Batch(BatchSpec { deps: vec![], ..b.clone() }),
+                x => x.clone(),
+            }
+        };
+        let rev: Vec<Op> = ops.iter().rev().map(strip).collect();
+        for (what, other) in [("the same calls", ops.to_vec()), ("the calls in reverse order, dependencies dropped", rev)] {
+            n += 1;
+            match crate::obs::layout_interleaved(ops, &other, &idm) {
+                Ok(l2) => {
+                    if l2 != *l {
+                        vs.push(("plan-depends-on-another-builder".to_string(), format!("registered in alternation with a second builder that receives {}: layout becomes {}", what, l2.short())));
+                    }
+                }
+                Err(e) => vs.push(("transformed-plan-rejected".to_string(), format!("registered in alternation with a second builder ({}): {}", what, e))),
+            }
+        }
+    }
     // (vii) the size of the default pool / the number of cores the building thread sees
     for nthreads in [1usize, 2, 3, 64] {
         rayon::verif::set_default_threads(Some(nthreads));
